@@ -22,6 +22,8 @@ type Voter struct {
 	committer *Committer
 
 	lastVotedView hotstuff.View
+	// lastVotedQCView is the highest view of a quorum certificate carried by a block this replica voted for.
+	lastVotedQCView hotstuff.View
 }
 
 func NewVoter(
@@ -89,6 +91,9 @@ func (v *Voter) Vote(block *hotstuff.Block) (pc hotstuff.PartialCert, err error)
 	// block is safe, so we update the view we voted for
 	// i.e., we voted for this block!
 	v.lastVotedView = block.View()
+	if qcView := block.QuorumCert().View(); qcView > v.lastVotedQCView {
+		v.lastVotedQCView = qcView
+	}
 	return pc, nil
 }
 
@@ -107,8 +112,14 @@ func (v *Voter) Verify(proposal *hotstuff.ProposeMsg) (err error) {
 	if err := v.auth.VerifyAnyQC(proposal); err != nil {
 		return err
 	}
-	// the block must directly extend the block certified by its (now verified) QC
 	qc := proposal.Block.QuorumCert()
+	// A proposal justified by an aggregate QC must not build below what this replica has already voted on.
+	// Which of the reported QCs count as the highest depends on the blocks this replica can obtain, and
+	// other replicas may be shown other aggregate QCs, so the aggregate QC alone does not rule that out.
+	if proposal.AggregateQC != nil && qc.View() < v.lastVotedQCView {
+		return fmt.Errorf("block builds on a QC for view %d, below the QC for view %d of a block already voted for", qc.View(), v.lastVotedQCView)
+	}
+	// the block must directly extend the block certified by its (now verified) QC
 	if proposal.Block.Parent() != qc.BlockHash() {
 		return fmt.Errorf("block's parent is not the block certified by its quorum certificate")
 	}
